@@ -132,7 +132,7 @@ def correspondence(ctx, n):
     if not ctx.ocaml(d, ['C27_x.mli', 'C27_x.ml', 'C27_drv.ml'], 'drv'):
         ctx.broken.append(('correspondence:C27', 'OCaml driver build failed')); return
     exe = ctx.bdir('C27_probe')
-    if not ctx.cxx(os.path.join(VERIF, 'harness', 'C27_probe.cpp'), exe):
+    if not ctx.compiled['probe'].result():
         ctx.broken.append(('correspondence:C27', 'C++ probe does not compile against the current source')); return
     info = {}
     for mode, flt in (('d', False), ('f', True)):
@@ -167,7 +167,7 @@ def correspondence(ctx, n):
 def search(ctx, n):
     """failing-input search on the implementation: the property's predicates (no model)"""
     exe = ctx.bdir('C27_search')
-    if not ctx.cxx(os.path.join(VERIF, 'harness', 'C27_search.cpp'), exe):
+    if not ctx.compiled['search'].result():
         ctx.broken.append(('search:C27', 'search harness does not compile')); return
     rc, out, err = sh([exe, str(ctx.seed), str(n)], timeout=1800)
     fails = [l for l in out.split('\n') if l.startswith('FAIL')]
@@ -182,6 +182,11 @@ def search(ctx, n):
 
 def run(ctx):
     ctx.build_repo()
+    # the two harnesses are compiled against the current source while Coq runs
+    from concurrent.futures import ThreadPoolExecutor
+    pool = ThreadPoolExecutor(2)
+    ctx.compiled = {'probe': pool.submit(ctx.cxx, os.path.join(VERIF, 'harness', 'C27_probe.cpp'), ctx.bdir('C27_probe')),
+                    'search': pool.submit(ctx.cxx, os.path.join(VERIF, 'harness', 'C27_search.cpp'), ctx.bdir('C27_search'))}
     meta = ctx.translate('rot27')
     ok = ctx.coq_props(PROPS)
     correspondence(ctx, 40 if ctx.tier == 'quick' else 400)
